@@ -32,10 +32,11 @@ var labelSetsPool = []map[string]string{
 var metricPool = []string{"ca", "ga", "cb", "gb"} // c* counters, g* gauges
 
 type dataInfo struct {
-	metrics []string
-	iv      int64
-	span    int64 // last scrape slot (ms after base)
-	classes []string
+	dupJobInst bool // two series of one metric share (job, inst)
+	metrics    []string
+	iv         int64
+	span       int64 // last scrape slot (ms after base)
+	classes    []string
 }
 
 func roundDec(f float64, dec int) float64 {
@@ -56,7 +57,7 @@ func genData(t *rapid.T) (DataJ, dataInfo) {
 		d.Base = baseCross - (info.span/2/iv)*iv
 		cls("data:two_shard_groups")
 	}
-	d.Flush = rapid.SampledFrom([]int{0, 0, 0, 1, 2}).Draw(t, "flush")
+	d.Flush = rapid.SampledFrom([]int{0, 0, 0, 0, 1, 1, 1, 2}).Draw(t, "flush")
 	cls(fmt.Sprintf("data:flush%d", d.Flush))
 	nm := rapid.IntRange(1, 3).Draw(t, "nmetrics")
 	mi := rapid.IntRange(0, len(metricPool)-1).Draw(t, "metric0")
@@ -193,6 +194,14 @@ func genData(t *rapid.T) (DataJ, dataInfo) {
 	}
 	if len(d.Series) == 0 {
 		t.Skip("empty sample set")
+	}
+	seen := map[string]bool{}
+	for _, se := range d.Series {
+		k := se.Labels["__name__"] + "|" + se.Labels["job"] + "|" + se.Labels["inst"]
+		if seen[k] {
+			info.dupJobInst = true
+		}
+		seen[k] = true
 	}
 	return d, info
 }
@@ -401,7 +410,13 @@ func (g *exprGen) binop(lhs, rhs func() string, vv bool) string {
 		match = " ignoring (" + rapid.SampledFrom([]string{"zone", "job", "inst", "nolabel"}).Draw(t, "ignlabels") + ")"
 		g.feat("bin:ignoring")
 	case 7:
-		match = " on (job,inst) " + rapid.SampledFrom([]string{"group_left", "group_right", "group_left (zone)"}).Draw(t, "group")
+		forms := []string{"group_left", "group_right", "group_left (zone)"}
+		if g.info.dupJobInst {
+			// two series that differ only in zone would collapse into one output label set with group_left (zone):
+			// upstream answers such an expression only when a comparison filter happens to drop one of them
+			forms = forms[:2]
+		}
+		match = " on (job,inst) " + rapid.SampledFrom(forms).Draw(t, "group")
 		g.feat("bin:group")
 	}
 	return lhs() + " " + op + match + " " + rhs()
